@@ -75,4 +75,8 @@ Step(yt, yp, b, br) ==
      /\ recs' = (IF st' = "None" THEN rc0
                  ELSE IF st' = "warning" THEN (IF rc0[1] = -1 THEN <<total, rc0[2]>> ELSE rc0)
                  ELSE <<(IF rc0[1] = -1 THEN total ELSE rc0[1]), total>>)
+(* reset() called by the user: the epoch restarts (statistics, confusion matrix, recommendation); the Monte-Carlo cache and the
+   lifetime counter survive.  The test schedule (every sub-th sample after burn-in) is counted within the NEW epoch. *)
+UserReset == /\ since' = 0 /\ st' = "None" /\ recs' = NoRecs /\ conf' = Ones /\ R' = Half
+             /\ UNCHANGED <<lcfg, total, cache>>
 =============================================================================
